@@ -30,6 +30,7 @@ type GenOpts struct {
 	NoEdgeWhite      bool // the first and last inline item of every paragraph is a text token or symbol
 
 	NumberedHeadings bool // some headings carry list numbering (numbered headings)
+	NumOff           bool // some paragraphs and headings carry numPr with numId 0 (numbering removed)
 }
 
 // AllHows lists every heading mechanism.
@@ -108,6 +109,9 @@ func GenDoc(t *rapid.T, o GenOpts) Doc {
 				b.Runs = g.para(false, 3)
 			}
 			b.Style = rapid.SampledFrom([]string{"", "", "body", "quote"}).Draw(t, "pstyle")
+			if o.NumOff && len(b.Runs) > 0 && rapid.IntRange(0, 4).Draw(t, "numOff") == 0 {
+				b.NumOff = true
+			}
 			d.Blocks = append(d.Blocks, b)
 		case BHeading:
 			h := Block{
@@ -120,6 +124,8 @@ func GenDoc(t *rapid.T, o GenOpts) Doc {
 				h.Numbered = true
 				h.List = rapid.IntRange(0, len(d.Lists)-1).Draw(t, "headingList")
 				h.Depth = rapid.IntRange(0, len(d.Lists[h.List].Kinds)-1).Draw(t, "headingListLevel")
+			} else if o.NumOff && rapid.IntRange(0, 4).Draw(t, "numOffHeading") == 0 {
+				h.NumOff = true
 			}
 			d.Blocks = append(d.Blocks, h)
 		case BItem:
